@@ -758,37 +758,73 @@ func (m *Machine) decimal(t *sym.Term, signedT bool) []*sym.Term {
 		m.end("assume", fmt.Sprintf("bound: decimal rendering limited to %d digits", MaxDecimalDigits))
 	}
 	nd := k + 1
-	// digit variables
+	memoKey := fmt.Sprintf("dec:%d:%d", t.ID, nd)
+	if r, ok := m.ext[memoKey]; ok {
+		ds := r.([]*sym.Term)
+		out := make([]*sym.Term, 0, nd+1)
+		if neg {
+			out = append(out, c.BV('-', 8))
+		}
+		return append(out, ds...)
+	}
+	// digit variables; the equation is stated in the narrowest width that holds 10^nd
+	bits := 4
+	for (uint64(1) << uint(bits)) < p10(nd) {
+		bits++
+	}
+	if bits > w {
+		bits = w
+	}
+	if bits < 8 {
+		bits = 8
+		if bits > w {
+			bits = w
+		}
+	}
+	low := c.Extract(t, bits-1, 0)
+	if bits < w {
+		m.addPC(c.Eq(c.Extract(t, w-1, bits), c.BV(0, w-bits)))
+	}
 	m.nameCount["$dec"]++
 	id := m.nameCount["$dec"]
 	ds := make([]*sym.Term, nd)
-	sum := c.BV(0, w)
+	sum := c.BV(0, bits)
 	pw := uint64(1)
 	for i := nd - 1; i >= 0; i-- {
 		d := c.Var(fmt.Sprintf("$dec.%d[%d]", id, i), 8)
 		ds[i] = d
 		m.addPC(c.Ule(d, c.BV(9, 8)))
 		var dz *sym.Term
-		if w >= 8 {
-			dz = c.Zext(d, w)
+		if bits >= 8 {
+			dz = c.Zext(d, bits)
 		} else {
-			dz = c.Extract(d, w-1, 0)
+			dz = c.Extract(d, bits-1, 0)
 		}
-		sum = c.Bin(sym.OpAdd, sum, c.Bin(sym.OpMul, dz, c.BV(pw, w)))
+		sum = c.Bin(sym.OpAdd, sum, c.Bin(sym.OpMul, dz, c.BV(pw, bits)))
 		pw *= 10
 	}
-	m.addPC(c.Eq(sum, t))
+	m.addPC(c.Eq(sum, low))
 	if nd > 1 {
 		m.addPC(c.Not(c.Eq(ds[0], c.BV(0, 8))))
 	}
+	chars := make([]*sym.Term, nd)
+	for i, d := range ds {
+		chars[i] = c.Bin(sym.OpAdd, d, c.BV('0', 8))
+	}
+	m.ext[memoKey] = chars
 	out := make([]*sym.Term, 0, nd+1)
 	if neg {
 		out = append(out, c.BV('-', 8))
 	}
-	for _, d := range ds {
-		out = append(out, c.Bin(sym.OpAdd, d, c.BV('0', 8)))
+	return append(out, chars...)
+}
+
+func p10(n int) uint64 {
+	p := uint64(1)
+	for i := 0; i < n; i++ {
+		p *= 10
 	}
-	return out
+	return p
 }
 
 func (m *Machine) formatBase(t *sym.Term, signedT bool, base int) []*sym.Term {
